@@ -42,6 +42,8 @@ def run(chk):
     chk.bounds.update({'E-MIR': 'string entry points executed from MIR; n=2, k<=3, colour bits c in {0,1} (c=1: domains may be empty for one colour only); all transition systems, all wild-card / domain sets inside the unit set and independent of the auxiliary variables',
                        'E-UNI': 'instances U2, C2, M2 (thorough: S3); d is empty exactly for the colours where e may be non-empty; labels empty/full are the empty set and the unit set'})
     chk.assumptions += ['E-MIR: bit-vector library model; with_custom_context returns Err for an empty unit set', 'context sets are subsets of the unit set that do not depend on auxiliary variables (the documented precondition)']
+    from .. import conformance
+    conformance.run(chk, 2, 1); conformance.run(chk, 3, 0, samples=2)
     fs = family()
     tasks = []
     skip_fixed = {'empty', 'full'}
